@@ -16,6 +16,8 @@ type Tables struct {
 	SchedAllowed       map[string]string   `json:"sched_allowed"`
 	OrderedProducers   []OrderedProducer   `json:"ordered_producers"` // packages whose results feed an order-sensitive selection
 	Floors             map[string]int      `json:"floors"`
+	OrderSinks         map[string]string   `json:"order_sinks"` // "<rel pkg>.<Type>.<Field>" -> why the order of the list kept there matters (a budgeted or first-match consumer further on)
+	IdentityFields     map[string][]string `json:"identity_fields"` // element type -> fields that identify an element (from the property statements: per entity, per author)
 	// E6
 	Listeners     []ListenerSpec      `json:"listeners"`
 	MustCall      []MustCallSpec      `json:"must_call"`
